@@ -771,9 +771,14 @@ def main():
         "T2 covers the designs the generator reaches; passes are not modelled, only their results are checked at every boundary",
         "the per-kind type requirement table (WfDefs.kind_req) is our reading of the connectInput functions of the core nodes; kinds not in the table have no requirement",
         "the dumper prints `X` for any pointer not found among the live objects of the circuit without dereferencing it; Clock::getClockedNodes itself dereferences its entries",
+        "T2: Circuit::m_nextNodeId / m_nextGroupId / m_nextClockId are not observable; the imported graph takes max id + 1, so for real dumps clause (v) checks uniqueness of ids only",
         "use-after-free / out-of-bounds accesses are NOT covered by the theorems; in-bounds and liveness are preconditions (op_struct_pre) of the model operations",
         "NodeIO::connectInput / rewireInput / attachClock do not bounds-check their port index (only getDriver does); calls with an out-of-range index are outside the modelled contract",
     ]
+    if not rep.violations and not quick:
+        # the thorough tier leaves several hundred MB of dumps behind; they are only interesting after a failure
+        for d in ("t1", "t2", "asan"):
+            shutil.rmtree(WORK / d, ignore_errors=True)
     rep.finish()
 
 
